@@ -515,7 +515,8 @@ class Loop(Node):
             for child in self:
                 child.reverse_inplace()
         if self._measurements:
-            duration = self.duration
+            # the measurements are relative to one execution of the body (they are repeated with it)
+            duration = self.body_duration
             self._measurements = [
                 (name, duration - (begin + length), length)
                 for name, begin, length in self._measurements
